@@ -394,6 +394,9 @@ func checkPosSpec(n ast.Node) map[string]string {
 
 // generatorsMatch runs the repository's generators and compares with the checked-in files.
 func generatorsMatch(r *explore.Run) {
+	if r.Replaying() {
+		return
+	}
 	repo := repoDir()
 	for _, g := range []struct{ tool, out string }{
 		{"./tools/gen-ast-pos/main.go", "ast/pos.go"},
